@@ -178,6 +178,19 @@ func main() {
 				panic(err)
 			}
 			sgn = gs
+			if ci%4 == 3 && !c.Blob {
+				// the older constructor name (still exported) yields a signer that signs the same way
+				old, err := signer.New(ent.Key, ent.Chain())
+				if err != nil {
+					r.Violation(map[string]string{"kind": "sign-failed", "signer": "signer.New", "spec": c.Spec}, fmt.Sprintf("%s: signer.New refuses a valid key and chain: %v", id, err), nil)
+					return
+				}
+				sgn = old.(interface {
+					notation.Signer
+					notation.BlobSigner
+				})
+				r.Event("signers-from-the-older-constructor-names")
+			}
 		case "local-from-files": // the key and the chain (leaf first) as PEM files, the way the CLI hands them over
 			kd := lib.TempDir("c07k")
 			defer os.RemoveAll(kd)
@@ -203,6 +216,18 @@ func main() {
 				panic(err)
 			}
 			sgn = ps
+			if ci%4 == 3 && !c.Blob {
+				old, err := signer.NewFromPlugin(&lib.HonestSignPlugin{Mode: strings.TrimPrefix(c.SignerKind, "plugin-"), Ent: ent, KeySpecName: c.Spec, Annotations: map[string]string{"plugin.ann": "x"}}, "key-1", map[string]string{"c": "v"})
+				if err != nil {
+					r.Violation(map[string]string{"kind": "sign-failed", "signer": "signer.NewFromPlugin", "spec": c.Spec}, fmt.Sprintf("%s: signer.NewFromPlugin failed: %v", id, err), nil)
+					return
+				}
+				sgn = old.(interface {
+					notation.Signer
+					notation.BlobSigner
+				})
+				r.Event("signers-from-the-older-constructor-names")
+			}
 		}
 		sv := trustpolicy.SignatureVerification{VerificationLevel: "strict"}
 		ts := lib.NewMemTS().Put("ca:x", ent.Root().Cert)
@@ -367,7 +392,14 @@ func main() {
 		}
 		resolved, _ := repo.Resolve(ctx, artifact.Digest.String())
 		ref := "registry.example/repo@" + artifact.Digest.String()
-		aDesc, _, err := notation.SignOCI(ctx, sgn, repo, notation.SignOptions{SignerSignOptions: sopts, ArtifactReference: ref, UserMetadata: c.Metadata})
+		var aDesc ocispec.Descriptor
+		if ci%5 == 4 {
+			// the older entry point (still exported, documented as equivalent apart from what it returns)
+			aDesc, err = notation.Sign(ctx, sgn, repo, notation.SignOptions{SignerSignOptions: sopts, ArtifactReference: ref, UserMetadata: c.Metadata})
+			r.Event("signed-through-the-older-entry-point")
+		} else {
+			aDesc, _, err = notation.SignOCI(ctx, sgn, repo, notation.SignOptions{SignerSignOptions: sopts, ArtifactReference: ref, UserMetadata: c.Metadata})
+		}
 		if err != nil {
 			r.Violation(sig("sign-failed"), fmt.Sprintf("%s: SignOCI failed: %v", id, err), wit)
 			return
